@@ -8,6 +8,9 @@ PARS = {"default": dict(threads=4, type=5, pens=(-1, -1, -1)), "explicit": dict(
         "typed": dict(threads=2, type=-2, pens=(-1, -1, 3))}   # type -2: dna for nucleotides / protein for proteins
 
 
+SAME_SHAPES = [(3, 40), (6, 60), (3, 40), (5, 80), (4, 30), (8, 50)]
+
+
 def make_inputs(rng, wd):
     # equal-length sequences on purpose: ties in the canonical order expose any dependence on stale memory
     dna = gen.family(rng, 6, 36, gen.DNA, sub=0.2, indel=0.0) + gen.family(rng, 2, 30, gen.DNA, sub=0.2, indel=0.1)
@@ -16,10 +19,15 @@ def make_inputs(rng, wd):
     sparse = []
     for i in range(24):
         sparse.append(gen.rand_seq(rng, gen.DNA, 20) if i in (3, 11, 17) else "")
+    # records that tie completely in the canonical order (same name, same length, different residues): the order among them
+    # must come from the input alone, never from where earlier calls left the heap
+    same = {"same": [gen.rand_seq(rng, gen.DNA, 40) for _ in range(5)]}
+    for j, (cnt, L) in enumerate(SAME_SHAPES):
+        same["same%d" % j] = gen.family(rng, cnt, L, gen.DNA, sub=0.35, indel=0.0) if j % 2 else [gen.rand_seq(rng, gen.DNA, L) for _ in range(cnt)]
     files = {}
-    for k, seqs in (("dna", dna), ("prot", prot), ("sparse", sparse)):
+    for k, seqs in [("dna", dna), ("prot", prot), ("sparse", sparse)] + sorted(same.items()):
         p = os.path.join(wd, k + ".fa")
-        open(p, "w").write(kv.fasta([("%s%d" % (k[0], i), s) for i, s in enumerate(seqs)]))
+        open(p, "w").write(kv.fasta([("x" if k.startswith("same") else "%s%d" % (k[0], i), s) for i, s in enumerate(seqs)]))
         a = os.path.join(wd, k + ".arr")
         open(a, "w").write("".join(",".join(str(ord(c)) for c in s) + "\n" for s in seqs))
         files[k] = (p, a)
@@ -96,7 +104,7 @@ def run(tier, seed, which="C16"):
             h = rng.randrange(2)
             opts = []
             if st[h] is None:
-                opts.append(("read", rng.choice(["dna", "prot", "sparse"])))
+                opts.append(("read", rng.choice(["dna", "prot", "sparse", "same", "same"])))
             elif st[h][1] == "read":
                 opts += [("run", rng.choice(list(PARS)[:2])), ("free",)]
             else:
@@ -118,7 +126,14 @@ def run(tier, seed, which="C16"):
             if st[h] is not None:
                 c = dict(op="free", h=h); hist.append(c); chains.append([c])
         hists.append(dict(hist=hist, chains=chains, long=True))
-    for inp in ("dna", "prot", "sparse"):
+    # the same call twice, and after an unrelated read/run/free, on the fully tied input
+    for tgt in ["same"] + ["same%d" % j for j in range(len(SAME_SHAPES))]:
+        for first in (tgt, "prot"):
+            hist = [dict(op="read", h=0, i=first), dict(op="run", h=0, p="explicit"), dict(op="free", h=0),
+                    dict(op="read", h=1, i=tgt), dict(op="run", h=1, p="explicit"), dict(op="write", h=1, f="fasta"), dict(op="free", h=1)]
+            chains = [hist[:1], hist[:2], [hist[2]], hist[3:4], hist[3:5], hist[3:6], [hist[6]]]
+            hists.append(dict(hist=hist, chains=chains, long=True))
+    for inp in ("dna", "prot", "sparse", "same"):
         for fmt in ("fasta", "clu"):      # not msf: its header carries the file name and the time
             hist = [dict(op="read", h=0, i=inp), dict(op="run", h=0, p="default"), dict(op="write", h=0, f=fmt), dict(op="free", h=0),
                     dict(op="kalign", i=inp, p="default")]
@@ -149,9 +164,19 @@ def run(tier, seed, which="C16"):
         fres[key] = (v, rc)
 
     # ---- the histories
-    def hist_run(hi):
+    # long histories run twice: under ASan/LSan (leaks, memory errors) and with the plain allocator, because the sanitizer's
+    # allocator never hands freed chunks back and so hides any dependence on where earlier calls left the heap
+    jobs = []
+    for hi, H in enumerate(hists):
+        if H.get("long"):
+            jobs += [(hi, "san"), (hi, "rel")]
+        else:
+            jobs.append((hi, "san" if hi % 8 == 0 else "rel"))
+
+    def hist_run(ji):
+        hi, variant = jobs[ji]
         H = hists[hi]
-        hwd = os.path.join(wd, "h%d" % hi)
+        hwd = os.path.join(wd, "h%d%s" % (hi, "" if variant == "san" or not H.get("long") else "r"))
         os.makedirs(hwd, exist_ok=True)
         lines = ["level 0"]
         for k, c in enumerate(H["hist"]):
@@ -165,7 +190,6 @@ def run(tier, seed, which="C16"):
                 live.discard(c["h"])
         for h in sorted(live):
             lines.append("free %d" % h)
-        variant = "san" if (H.get("long") or hi % 8 == 0) else "rel"
         tp, rc, err = kv.run_kvdrive("\n".join(lines) + "\n", hwd, "t", variant=variant, leaks=(variant == "san"), timeout=300)
         ev = kv.read_trace(tp)
         out = []
@@ -173,8 +197,9 @@ def run(tier, seed, which="C16"):
             if c["op"] == "free":
                 continue
             key = json.dumps(H["chains"][k], sort_keys=True)
-            out.append(dict(e="Res", id="h%d:c%d" % (hi, k), v=project(ev, "c%d" % k, hwd)))
-            out.append(dict(e="Fresh", id="h%d:c%d" % (hi, k), v=fres[key][0]))
+            tagr = "r" if (variant == "rel" and H.get("long")) else ""
+            out.append(dict(e="Res", id="h%d%s:c%d" % (hi, tagr, k), v=project(ev, "c%d" % k, hwd)))
+            out.append(dict(e="Fresh", id="h%d%s:c%d" % (hi, tagr, k), v=fres[key][0]))
         leak = 0
         if variant == "san":
             m = re.search(r"SUMMARY: AddressSanitizer: (\d+) byte\(s\) leaked", err)
@@ -183,10 +208,17 @@ def run(tier, seed, which="C16"):
         return hi, out, rc, err, variant
 
     allev = []
-    results = kv.pmap(hist_run, range(len(hists)), workers=14)
+    results = kv.pmap(hist_run, range(len(jobs)), workers=14)
     bad = []
+    seen_h = set()
     for hi, out, rc, err, variant in results:
         allev += out
+        if hi in seen_h:
+            ok_rc = rc == 0 or (variant == "san" and rc == 99)
+            if not ok_rc:
+                bad.append((hi, rc, err[-300:]))
+            continue
+        seen_h.add(hi)
         V.case(json.dumps(hists[hi]["hist"], sort_keys=True), any(c["op"] in ("run", "kalign") for c in hists[hi]["hist"]))
         ok_rc = rc == 0 or (variant == "san" and rc == 99)
         if not ok_rc:
@@ -201,12 +233,13 @@ def run(tier, seed, which="C16"):
     for ci, tp, res in kv.pmap(tlc, range(len(chunks)), workers=8):
         V.add_tlc(res)
         for (ln, cid, items) in res.fails:
-            hi = int(cid.split(":")[0][1:])
+            hname = cid.split(":")[0]
+            hi = int(hname[1:].rstrip("r"))
             H = hists[hi]
             k = int(cid.split(":")[1][1:]) if ":" in cid else -1
             call = H["hist"][k] if k >= 0 else {}
             sig = dict(what=sorted(items), op=call.get("op"), long=bool(H.get("long")))
-            rp = kv.save_replay("C16", "h%d" % hi, [os.path.join(wd, "h%d" % hi, "t.kv"), os.path.join(wd, "h%d" % hi, "t.ndjson")])
+            rp = kv.save_replay("C16", hname, [os.path.join(wd, hname, "t.kv"), os.path.join(wd, hname, "t.ndjson")])
             V.violation("history %s, call %d (%s): %s" % (json.dumps(H["hist"])[:300], k, call.get("op"), ",".join(sorted(items))), rp, sig)
         if not res.accepted:
             V.violation("trace not accepted", tp, dict(kind="unexplained"))
